@@ -12,67 +12,91 @@ Proof. induction l as [|y l IHl]; intros [|i] x Hi; cbn in *; try lia; auto. app
 
 (* ------------------------------------------------------------ is_dirty *)
 (* the first four rules of private_is_dirty, in order *)
-Lemma is_dirty_failed fuel runid w c f mx seen :
+Lemma is_dirty_failed fuel runid w c f r mx seen :
   existsb (Nat.eqb f) seen = false ->
-  r_failed (load runid (dbs w) f) <> None ->
-  is_dirty (S fuel) runid w c f mx seen = Ret (VDirty, w, c, []).
+  r_failed r <> None ->
+  is_dirty (S fuel) runid w c f r mx seen = Ret (VDirty, w, c, []).
 Proof.
   intros Hs Hf. cbn [is_dirty]. rewrite Hs.
-  destruct (r_failed (load runid (dbs w) f)); [reflexivity|congruence].
+  destruct (r_failed r); [reflexivity|congruence].
 Qed.
 
-Lemma is_dirty_never_built fuel runid w c f mx seen :
+Lemma is_dirty_never_built fuel runid w c f r mx seen :
   existsb (Nat.eqb f) seen = false ->
-  r_changed (load runid (dbs w) f) = None ->
-  is_dirty (S fuel) runid w c f mx seen = Ret (VDirty, w, c, []).
+  r_changed r = None ->
+  is_dirty (S fuel) runid w c f r mx seen = Ret (VDirty, w, c, []).
 Proof.
   intros Hs Hc. cbn [is_dirty]. rewrite Hs, Hc.
-  destruct (r_failed (load runid (dbs w) f)); reflexivity.
+  destruct (r_failed r); reflexivity.
 Qed.
 
-Lemma is_dirty_newer fuel runid w c f mx seen chg :
+Lemma is_dirty_newer fuel runid w c f r mx seen chg :
   existsb (Nat.eqb f) seen = false ->
-  r_failed (load runid (dbs w) f) = None ->
-  r_changed (load runid (dbs w) f) = Some chg -> (mx < chg)%Z ->
-  is_dirty (S fuel) runid w c f mx seen = Ret (VDirty, w, c, []).
+  r_failed r = None ->
+  r_changed r = Some chg -> (mx < chg)%Z ->
+  is_dirty (S fuel) runid w c f r mx seen = Ret (VDirty, w, c, []).
 Proof.
   intros Hs Hf Hc Hlt. cbn [is_dirty]. rewrite Hs, Hf, Hc.
   apply Z.ltb_lt in Hlt. now rewrite Hlt.
 Qed.
 
-Lemma is_dirty_cycle fuel runid w c f mx seen :
+Lemma is_dirty_cycle fuel runid w c f r mx seen :
   existsb (Nat.eqb f) seen = true ->
-  is_dirty (S fuel) runid w c f mx seen = Ret (VCycle, w, c, []).
+  is_dirty (S fuel) runid w c f r mx seen = Ret (VCycle, w, c, []).
 Proof. intros Hs. cbn [is_dirty]. now rewrite Hs. Qed.
 
-(* is_dirty never touches a file: only the database may change *)
-Lemma walk_deps_fs isd runid f r w :
-  (forall w0 c0 s v w' c' evs, isd w0 c0 s = Ret (v, w', c', evs) -> fs w' = fs w0) ->
+(* a property I of worlds kept by every sub-check (of the edges in the list,
+   each with its snapshot row) holds wherever the walk stops; J is what is
+   wanted of the final world: I implies it, also across the final write-back *)
+Lemma walk_deps_inv2 (I J : world -> Prop) (Q : dep -> row -> Prop) isd runid f r :
+  (forall w1 c1 d rs v w' c' evs, Q d rs -> I w1 -> isd w1 c1 (d_source d) rs = Ret (v, w', c', evs) -> I w') ->
+  (forall w1, I w1 -> J w1) ->
+  (forall w1, I w1 -> J (set_db w1 (put_row (dbs w1) f (set_checked runid r)))) ->
   forall ds w0 c0 must evs0 v w' c' evs,
-    fs w0 = fs w ->
-    walk_deps isd runid f r ds w0 c0 must evs0 = Ret (v, w', c', evs) -> fs w' = fs w.
+    Forall (fun x => Q (fst x) (snd x)) ds ->
+    I w0 -> walk_deps isd runid f r ds w0 c0 must evs0 = Ret (v, w', c', evs) -> J w'.
 Proof.
-  intros Hisd. induction ds as [|d ds IHds]; intros w0 c0 must evs0 v w' c' evs Hw0 H; cbn [walk_deps] in H.
-  - destruct must; [destruct c0|]; inversion H; subst; cbn; auto.
-  - destruct (d_mode d).
-    + destruct (exists_b w0 (r_name (get_row (dbs w0) (d_source d)))).
-      * inversion H; subst. exact Hw0.
-      * eapply IHds; [|exact H]. exact Hw0.
-    + destruct (isd w0 c0 (d_source d)) as [[[[v1 w1] c1] e1]|] eqn:E; [|discriminate].
-      apply Hisd in E. destruct v1.
-      * eapply IHds; [|exact H]. congruence.
-      * inversion H; subst. congruence.
-      * eapply IHds; [|exact H]. congruence.
-      * inversion H; subst. congruence.
+  intros Hisd HJ Hput. induction ds as [|[d rs] ds IHds]; intros w0 c0 must evs0 v w' c' evs HQ Hw0 H; cbn [walk_deps] in H.
+  - destruct must; [destruct c0|]; inversion H; subst; auto.
+  - inversion HQ as [|x l Hq Hqs]; subst. cbn [fst snd] in Hq. destruct (d_mode d).
+    + destruct (exists_b w0 (r_name rs)).
+      * inversion H; subst. auto.
+      * eapply IHds; [exact Hqs| |exact H]. exact Hw0.
+    + destruct (isd w0 c0 (d_source d) rs) as [[[[v1 w1] c1] e1]|] eqn:E; [|discriminate].
+      pose proof (Hisd _ _ _ _ _ _ _ _ Hq Hw0 E) as H1. destruct v1.
+      * eapply IHds; [exact Hqs| |exact H]. exact H1.
+      * inversion H; subst. auto.
+      * eapply IHds; [exact Hqs| |exact H]. exact H1.
+      * inversion H; subst. auto.
 Qed.
 
-Lemma is_dirty_fs : forall fuel runid w c f mx seen v w' c' evs,
-  is_dirty fuel runid w c f mx seen = Ret (v, w', c', evs) -> fs w' = fs w.
+Lemma walk_deps_inv (I : world -> Prop) (Q : dep -> row -> Prop) isd runid f r :
+  (forall w1 c1 d rs v w' c' evs, Q d rs -> I w1 -> isd w1 c1 (d_source d) rs = Ret (v, w', c', evs) -> I w') ->
+  (forall w1, I w1 -> I (set_db w1 (put_row (dbs w1) f (set_checked runid r)))) ->
+  forall ds w0 c0 must evs0 v w' c' evs,
+    Forall (fun x => Q (fst x) (snd x)) ds ->
+    I w0 -> walk_deps isd runid f r ds w0 c0 must evs0 = Ret (v, w', c', evs) -> I w'.
+Proof. intros H1 H2. apply (walk_deps_inv2 I I Q); auto. Qed.
+
+Lemma Forall_trivial {A} (l : list A) : Forall (fun _ => True) l.
+Proof. induction l; constructor; auto. Qed.
+
+(* the snapshot rows are the rows of the database at query time *)
+Lemma deps_rows_loaded runid d r f :
+  Forall (fun x => In (fst x) (deps_of d r f) /\ snd x = load runid d (d_source (fst x))) (deps_rows runid d r f).
 Proof.
-  induction fuel as [|fuel IH]; intros runid w c f mx seen v w' c' evs H; [discriminate|].
+  unfold deps_rows. induction (deps_of d r f) as [|x l IH]; cbn; constructor.
+  - cbn. auto.
+  - eapply Forall_impl; [|exact IH]. cbn. intros y [H1 H2]. auto.
+Qed.
+
+(* is_dirty never touches a file: only the database may change *)
+Lemma is_dirty_fs : forall fuel runid w c f r mx seen v w' c' evs,
+  is_dirty fuel runid w c f r mx seen = Ret (v, w', c', evs) -> fs w' = fs w.
+Proof.
+  induction fuel as [|fuel IH]; intros runid w c f r mx seen v w' c' evs H; [discriminate|].
   cbn [is_dirty] in H.
   destruct (existsb (Nat.eqb f) seen); [inversion H; reflexivity|].
-  set (r := load runid (dbs w) f) in *.
   destruct (r_failed r); [inversion H; reflexivity|].
   destruct (r_changed r) as [chg|]; [|inversion H; reflexivity].
   destruct (Z.ltb mx chg); [inversion H; reflexivity|].
@@ -81,8 +105,9 @@ Proof.
   destruct (negb (stamp_eqb old (read_stamp w (r_name r)))).
   { inversion H; subst. unfold forget_missing.
     destruct (read_stamp w (r_name r)); [destruct (r_gen r)|]; reflexivity. }
-  eapply walk_deps_fs; [|reflexivity|exact H].
-  intros w0 c0 s v0 w0' c0' evs0 E. eapply IH; exact E.
+  eapply (walk_deps_inv (fun w1 => fs w1 = fs w) (fun _ _ => True)); [| |apply Forall_trivial|reflexivity|exact H].
+  - intros w1 c1 d rs v1 w1' c1' e1 _ Hw1 E. rewrite <- Hw1. eapply IH; exact E.
+  - intros w1 Hw1. exact Hw1.
 Qed.
 
 (* ------------------------------------------------------------ C05 *)
@@ -271,10 +296,10 @@ Proof.
 Qed.
 
 (* a dependency met again while it is being checked is a cycle *)
-Lemma is_dirty_cycle_detected fuel runid w c f mx seen :
+Lemma is_dirty_cycle_detected fuel runid w c f r mx seen :
   existsb (Nat.eqb f) seen = true ->
-  is_dirty (S fuel) runid w c f mx seen = Ret (VCycle, w, c, []).
-Proof. exact (is_dirty_cycle fuel runid w c f mx seen). Qed.
+  is_dirty (S fuel) runid w c f r mx seen = Ret (VCycle, w, c, []).
+Proof. exact (is_dirty_cycle fuel runid w c f r mx seen). Qed.
 
 (* ------------------------------------------------------------ C05: propagation *)
 Lemma status_of_nonzero before after rc stdout has_tmp :
@@ -303,7 +328,7 @@ Proof.
   destruct m.
   - intro H. apply start_self_never_aborts in H. discriminate.
   - destruct (is_failed _ _); [intro H; inversion H|].
-    destruct (is_dirty _ _ _ _ _ _ _) as [[[[v w1] c1] evd]|]; [|discriminate].
+    destruct (is_dirty _ _ _ _ _ _ _ _) as [[[[v w1] c1] evd]|]; [|discriminate].
     set (v' := match v with VNeed [x] => if Nat.eqb x f then VDirty else v | _ => v end).
     destruct v'.
     + intro H. inversion H.
